@@ -238,7 +238,9 @@ static void parse_event(const string& label, const string& text, size_t base) {
         ~G() { free(p); }
       } g{heap};
       StringReader sr(heap, text.size());
-      JSON v = JSON::parse(sr, de);
+      // default mode half of the time through the DEFAULTED argument (the documented default is: extensions enabled)
+      static unsigned flip = 0;
+      JSON v = (!de && (flip++ % 2)) ? JSON::parse(sr) : JSON::parse(sr, de);
       r.v = dump(v);
       r.where = (long)sr.where();
     });
@@ -249,9 +251,13 @@ static void parse_event(const string& label, const string& text, size_t base) {
         char* p;
         ~G() { free(p); }
       } g{heap};
-      r.v = dump(JSON::parse(heap, text.size(), de));
+      static unsigned flip = 0;
+      r.v = dump((!de && (flip++ % 2)) ? JSON::parse(heap, text.size()) : JSON::parse(heap, text.size(), de));
     });
-    res[strict * 3 + 2] = attempt([&](Res& r) { r.v = dump(JSON::parse(text, de)); });
+    res[strict * 3 + 2] = attempt([&](Res& r) {
+      static unsigned flip = 0;
+      r.v = dump((!de && (flip++ % 2)) ? JSON::parse(text) : JSON::parse(text, de));
+    });
   }
   string rs = "[";
   for (int i = 0; i < 6; i++) rs += (i ? "," : "") + res_json(res[i]);
